@@ -46,7 +46,7 @@ pub fn check(c: &Case, obs: &mut Obs) -> R {
 pub fn run(ctx: &mut Ctx) {
     ctx.rule = "inputs: all strings over the 19-symbol alphabet {\\ ' \" a n 0 z Z b t r LF TAB CR NUL BS 0x1A % é} up to length L \
 (exhaustive) every Unicode scalar value alone and in context, \
-and random Unicode strings (NUL included) up to 64 chars, each on the 3 backends. Non-trivial = the string contains a \
+four shapes of every length up to 1500 (quick) / 8000 (thorough) chars, and random Unicode strings (NUL included) up to 64 chars, each on the 3 backends. Non-trivial = the string contains a \
 character that is escaped, a backslash or a non-ASCII character; distinct by input."
         .into();
     let max_len = ctx.tier.pick(4, 5);
@@ -65,6 +65,27 @@ character that is escaped, a backslash or a non-ASCII character; distinct by inp
     if let Some(p) = ctx.parts.last_mut() {
         p.exhaustive = true;
     }
+    // every length up to a bound, four shapes each (block-wise scanners, buffers): an escapable character at the very end, a
+    // backslash every seventh character, a two-byte character in front (shifts byte offsets), and a dense mix
+    let max_chars: u64 = ctx.tier.pick(1_500, 8_000);
+    ctx.run_indexed(
+        "lengths",
+        (max_chars + 1) * 4,
+        &|i| {
+            let len = (i / 4) as usize;
+            let s: String = match i % 4 {
+                0 => (0..len).map(|k| if k + 1 == len { '\n' } else { 'a' }).collect(),
+                1 => (0..len).map(|k| if k % 7 == 6 { '\\' } else { 'b' }).collect(),
+                2 => (0..len).map(|k| if k == 0 { 'é' } else if k + 1 == len { '\'' } else { 'c' }).collect(),
+                _ => {
+                    const UNITS: [char; 8] = ['a', '\'', '\\', 'é', '😀', '\n', '"', '\0'];
+                    (0..len).map(|k| UNITS[(k * 5 + len) % 8]).collect()
+                }
+            };
+            Case { s }
+        },
+        &check,
+    );
     let n = ctx.tier.pick(100_000, 3_000_000);
     ctx.run_proptest("random-unicode", n, &|| nasty_string_nul(64).prop_map(|s| Case { s }), &check);
     if let Some(p) = ctx.parts.first_mut() {
